@@ -25,10 +25,14 @@ package req
 //@   loop 0:
 //@     invariant hsInv(s) && s.HLen + len(s.B) <= len(buf) && arr(s.B) == parseArr
 
+// C02: the header scanner runs only after ReadRawHeaders found the block complete.
 //@ func parse(h, buf) n, err
-//@   props C03
+//@   props C03, C02
 //@   requires h != nil
 //@   modifies *
+//@   ghostset-at-entry hdrComplete = false
+//@   ghostset after ReadRawHeaders#0: hdrComplete = (result2 == nil)
+//@   assert @C02 before parseHeaders#0: hdrComplete
 //@   ensures err == nil ==> 0 <= n && n <= len(buf)
 
 //@ func tryRead(h, r, n) err
